@@ -887,6 +887,10 @@ LAYOUTS = {
     'two-rules': lambda d1, d2: 'a{%s}b{%s}' % (d1, d2),
     'in-@media': lambda d1, d2: '@media all{a{%s;%s}}' % (d1, d2),
     'in-@page': lambda d1, d2: '@page{%s;%s}' % (d1, d2),
+    # declarations on two levels: the verdict of the outer rule covers its own block and the blocks below it
+    'page+margin-box': lambda d1, d2: '@page{%s;@top-left{%s}}' % (d1, d2),
+    'in-margin-box': lambda d1, d2: '@page{@top-left{%s}@bottom-center{%s}}' % (d1, d2),
+    'media-in-media': lambda d1, d2: '@media all{@media print{a{%s}}b{%s}}' % (d1, d2),
     '@font-face': lambda d1, d2: '@font-face{font-family:a;src:url(x);%s;%s}' % (d1, d2),
 }
 
@@ -940,7 +944,7 @@ def conjunction(res, name, verdicts, tier, menu_):
     for o in own:
         for p in partners:
             for pair in ((o, p), (p, o)):
-                for layout in ('one-rule', 'two-rules', 'dom') if tier == 'quick' else ('one-rule', 'two-rules', 'dom', 'in-@media', 'in-@page'):
+                for layout in ('one-rule', 'two-rules', 'dom') if tier == 'quick' else ('one-rule', 'two-rules', 'dom', 'in-@media', 'in-@page', 'page+margin-box'):
                     cases.append({'kind': 'conj', 'layout': layout, 'decls': [list(pair[0]), list(pair[1])]})
     if len(own) == 2:
         # the same name twice: the later declaration shadows the earlier, both are declarations of the block
@@ -1189,7 +1193,7 @@ def _ffconj(res):
     for a in fixed:
         for b in fixed:
             if a[0] != b[0]:
-                for layout in ('in-@media', 'in-@page'):
+                for layout in ('in-@media', 'in-@page', 'page+margin-box', 'in-margin-box', 'media-in-media'):
                     conjunction_case(res, {'kind': 'conj', 'layout': layout, 'decls': [list(a), list(b)]})
 
 
